@@ -374,6 +374,49 @@ def check_symlinked_recipe_in_site():
         shutil.rmtree(scratch, ignore_errors=True)
 
 
+def check_symlink_aliases():
+    """documents with a second name through a symbolic link: a category directory that is a link to a directory outside the source root
+    (its recipes are shown, but a link that NAMES one of them resolves outside the root and is refused), and a recipe file that is a link
+    to a plain file elsewhere in the tree (a link to that plain file is a link to a local file: copied to the assets area, not turned into
+    the recipe's page)"""
+    from recipe_grid.static_site.exceptions import LinkToExternalFileError
+    out = []
+    scratch = gen_site.scratch_root()
+    try:
+        root, outside = scratch / "site", scratch / "elsewhere"
+        (root / "a").mkdir(parents=True)
+        outside.mkdir()
+        (outside / "cake.md").write_text("# Cake for 2\n\n    1 x\n")
+        os.symlink(outside, root / "more", target_is_directory=True)
+        (root / "a" / "recipe.md").write_text("# Tea for 2\n\n    1 x\n\n[L](../more/cake.md)\n")
+        try:
+            generate_static_site(root, scratch / "out1", 2)
+            out.append(("C16:wrong-outcome:outside-expected-LinkToExternalFileError", "site/more -> ../elsewhere; the link ../more/cake.md resolves outside the source root and was accepted"))
+        except LinkToExternalFileError:
+            pass
+        except StaticSiteError as e:
+            out.append(("C16:wrong-outcome:outside-expected-LinkToExternalFileError", "raised %s instead" % type(e).__name__))
+        root2 = scratch / "site2"
+        (root2 / "texts").mkdir(parents=True)
+        story = b"# Story for 2\n\n    1 x\n"
+        (root2 / "texts" / "story.txt").write_bytes(story)
+        os.symlink("texts/story.txt", root2 / "story.md")
+        (root2 / "reader.md").write_text("# Reader for 2\n\n    1 x\n\n[L](texts/story.txt)\n")
+        generate_static_site(root2, scratch / "out2", 2)
+        copy = scratch / "out2" / "assets" / "texts" / "story.txt"
+        if not copy.exists() or copy.read_bytes() != story:
+            out.append(("C16:wrong-outcome:copy-expected-ok", "a link to texts/story.txt (a plain file that a recipe file links to by symlink) got no byte-identical copy under assets/"))
+        page = (scratch / "out2" / "serves2" / "reader.html").read_text()
+        hrefs = re.findall(r'href="([^"]*story[^"]*)"', page)
+        if [gen_site.resolve("/serves2/reader.html", h) for h in hrefs] != ["/assets/texts/story.txt"]:
+            out.append(("C16:wrong-outcome:copy-expected-ok", "the link to texts/story.txt is written %r" % hrefs))
+        return out
+    except Exception as e:  # noqa
+        return out + [("C16:generation-raises:%s" % type(e).__name__, str(e)[:200])]
+    finally:
+        shutil.rmtree(scratch, ignore_errors=True)
+
+
 def check_raw_html_references():
     """local files referred to only by raw HTML (upper-case tag and attribute names, OBJECT DATA is not one of lxml's link attributes and is
     left out) in a category readme / a recipe: copied all the same, and an escape is refused all the same"""
@@ -450,6 +493,9 @@ def oracle(run):
     run.case(("oracle-symlinked-recipe",), True, kind="symlinked-recipe")
     for sig, detail in check_symlinked_recipe_in_site():
         run.violate(sig, detail, {"symlinked_recipe": True})
+    run.case(("oracle-symlink-aliases",), True, kind="symlink-aliases")
+    for sig, detail in check_symlink_aliases():
+        run.violate(sig, detail, {"symlink_aliases": True})
     run.case(("oracle-raw-html",), True, kind="raw-html-references")
     for sig, detail in check_raw_html_references():
         run.violate(sig, detail, {"raw_html": True})
@@ -483,6 +529,11 @@ def replay(run, obj):
         res = fs_corr.replay_containment(obj["replay"]["containment"])
         for x in res:
             print(*x[:2])
+        return bool(res)
+    if obj["replay"].get("symlink_aliases"):
+        res = check_symlink_aliases()
+        for x in res:
+            print(*x)
         return bool(res)
     if obj["replay"].get("raw_html"):
         res = check_raw_html_references()
